@@ -442,6 +442,16 @@ def run_calibration(case, R):
         pop = pops[(int(u[2] * len(pops)) + i) % len(pops)] if u[3] < 0.8 else "all"
         if (pn, pop) not in [(a, b) for a, b, _, _ in pars_to_adjust]:
             pars_to_adjust.append((pn, pop, 0.1, 5.0))
+    # the caller's parameter set is already calibrated (a second calibration, or one continued from a loaded one): the factors
+    # that are adjusted do not start at 1, and "no worse than the starting point" refers to *these* values
+    if (u[3] * 10) % 1 < 0.6:
+        for j, (pn, pop, lo_, hi_) in enumerate(pars_to_adjust):
+            f0 = [0.53, 1.7, 0.8, 2.4][(int(u[1] * 97) + j) % 4]
+            if pop == "all":
+                parset.pars[pn].meta_y_factor = f0
+            else:
+                parset.pars[pn].y_factor[pop] = f0
+        R.count("calibrations_from_a_calibrated_parset")
     outputs = [(ords[int(u[4] * len(ords)) % len(ords)], pops[0], 1.0, "fractional")]
     if u[5] < 0.5 and len(ords) > 1:
         outputs.append((ords[(int(u[4] * len(ords)) + 1) % len(ords)], None, 1.0, "fractional"))
@@ -476,8 +486,15 @@ def run_calibration(case, R):
         finally:
             P.settings._sim_end = end0
 
+    first_x = []
+
+    def pre_objective(y_factors, *a, **k):
+        if not first_x:
+            first_x.append([float(v) for v in np.ravel(y_factors)])
+
     with attach.Attach() as A:
         A.wrap(M.Model, "process", pre=pre_process)
+        hooked_obj = A.wrap(C, "_calculate_objective", pre=pre_objective)
         before = snapshot_all(P, parset, None, None)
         np.random.seed(case["asd_seed"])
         try:
@@ -492,6 +509,14 @@ def run_calibration(case, R):
         R.count("reference_runs_completed")
         R.count("simulations_in_reference_runs", N_ref)
         nproc["fail_at"] = None
+        # the search starts from the caller's calibration factors
+        if hooked_obj and first_x:
+            x_caller = [float(parset.pars[pn].meta_y_factor if pop == "all" else parset.pars[pn].y_factor[pop]) for pn, pop, _, _ in pars_to_adjust]
+            R.count("calibration_starting_points_checked")
+            if len(first_x[0]) != len(x_caller) or any(abs(a_ - b_) > 1e-12 * max(1.0, abs(b_)) for a_, b_ in zip(first_x[0], x_caller)):
+                R.bad("start=callers-parset", "C15:calibration-starts-from-other-values[%s]" % ("meta" if any(pop == "all" for _, pop, _, _ in pars_to_adjust) else "population"), {"first_evaluation": first_x[0], "callers_factors": x_caller, "adjustables": pars_to_adjust})
+            else:
+                R.ok("start=callers-parset")
         o_start = objective_of(parset)
         o_end = objective_of(new)
         R.count("objectives_reevaluated", 2)
